@@ -44,6 +44,18 @@
 (* is constructed (Construct / Restart), so a replayed scenario spans      *)
 (* several lifetimes and the graph has no dead end.                        *)
 (*                                                                         *)
+(* TIME is in HALF TICKS: the time points of sleeps are even numbers (2n =  *)
+(* tick n); an odd number 2n-1 stands for "1 ns before tick n" and is only *)
+(* used as the `now` of a get_expired probe, so that a sleep handed out     *)
+(* even one clock unit early is observed.  The replayer embeds model time  *)
+(* into the clock's nanosecond resolution, order preserving and with       *)
+(* sub-millisecond offsets, and maps real time points back exactly.        *)
+(* API FORMS: Schedule / CoSleep(tp, ..) stand for EVERY way the header    *)
+(* lets a client request a sleep: sleep_until(tp), schedule(id,promise,tp),*)
+(* sleep_for(d) for every duration type with tp = (now at the call) + d    *)
+(* exactly (:170-173; the conversion must not lose a nanosecond), and      *)
+(* interval(d) (:306-327).  The replayer rotates the forms per call.       *)
+(*                                                                         *)
 (* Not modelled here (separate model on top of Parts 1-2): worker thread / *)
 (* thread pool, i.e. `_mx` as a lock with a holder, `_cond` with waiters,  *)
 (* the stop callback's notify.  In the modes below exactly one thread      *)
@@ -55,8 +67,8 @@
 EXTENDS SchedHeap
 
 CONSTANTS Mode,        \* "manual" | "start"
-          TPs,         \* time points passed to schedule()/sleep_until()
-          Nows,        \* manual: values of `now` passed to get_expired()
+          TPs,         \* time points of sleeps (even: half ticks), whatever API form requests them
+          Nows,        \* manual: values of `now` passed to get_expired() (odd: 1 ns before the next tick)
           Ids,         \* identifiers passed to schedule(); 0 is nullptr
           CancelIds,   \* identifiers passed to cancel()/remove()
           MaxSleeps,   \* bound: sleeps pending at the same time (slots)
@@ -142,7 +154,9 @@ GenAfter(g, k, st) ==
       THEN [g EXCEPT !.st = IF st = "done" THEN "yield" ELSE "done"]
       ELSE g
 
-(* sleep_until(tp,id) -> schedule(), scheduler.h:89-97,152-156.  ntf: _cond.notify_all() was called *)
+(* a sleep until tp is requested, in any API form: sleep_until(tp,id) :152-156, sleep_for(d,id) with
+   now()+d = tp :170-173, schedule(id,promise,tp) :89-97 -- all end in schedule().
+   ntf: _cond.notify_all() was called *)
 Schedule(tp, id, ntf) ==
     /\ CanCall /\ CanSchedule
     /\ ntf = B(NotifyNeeded(heap, tp))
